@@ -157,8 +157,8 @@ Definition level_str (l : level) : bytes :=
   end.
 
 (* LogValue.  A float carries two OPAQUE renderings supplied with the case: the serde_json text
-   (ryu for finite values, null for NaN/inf — `Number::from_f64` fails) and Rust's `{}` Display
-   text (pattern encoder).  ryu / float Display are not modelled. *)
+   (serde_json float text for finite values, null for NaN/inf — `Number::from_f64` fails) and Rust's `{}` Display
+   text (pattern encoder).  the float formatters are not modelled. *)
 Inductive value :=
 | VStr (s : bytes)
 | VInt (z : Z)
